@@ -28,7 +28,8 @@ def inline_builtin(expr: Expression, rules: Mapping[str, Rule]) -> Expression:  
 
 def inline_silent_rules(expr: Expression, rules: Mapping[str, Rule]) -> Expression:
     """Inline silent rules."""
-    if isinstance(expr, Identifier):
+    if isinstance(expr, Identifier) and not expr.tag:
+        # A tagged reference is kept: the tag context lives on the Identifier.
         # A reference to an undefined rule is left for parse time to report.
         rule = rules.get(expr.value)
         if rule and rule.modifier & SILENT:
